@@ -92,6 +92,10 @@ def absorb (C : Crypto) (els : List Token) (t : Token) : List Token :=
       | _, _ => x
     else x)
 
+/-- the waiting tokens that point to hash `h` (in waiting order) / the others -/
+def kidsOf (unc : List Token) (h : Bytes) : List Token := unc.filter (fun u => u.prev == h)
+def othersOf (unc : List Token) (h : Bytes) : List Token := unc.filter (fun u => !(u.prev == h))
+
 theorem filter_split_length (p : Token → Bool) (l : List Token) :
     (l.filter p).length + (l.filter (fun u => !p u)).length = l.length := by
   induction l with
@@ -117,8 +121,7 @@ def drain (C : Crypto) (g : Bytes) (cap : Nat) (els unc stack : List Token) : Tr
     else if r.prev != g && !hasId C els r.prev then drain C g cap els (uncAdd cap unc r) rest
     else if hasId C els (r.id C) then drain C g cap (absorb C els r) unc rest
     else
-      drain C g cap (els ++ [r]) (unc.filter (fun u => !(u.prev == r.id C)))
-        (unc.filter (fun u => u.prev == r.id C) ++ rest)
+      drain C g cap (els ++ [r]) (othersOf unc (r.id C)) (kidsOf unc (r.id C) ++ rest)
 termination_by (unc.length + stack.length, stack.length)
 decreasing_by
   · simp_wf; apply Prod.Lex.left; omega
@@ -135,6 +138,7 @@ decreasing_by
   · simp_wf
     apply Prod.Lex.left
     have := filter_split_length (fun u => u.prev == r.id C) unc
+    simp only [kidsOf, othersOf]
     omega
 
 /-- what gather_token returns -/
